@@ -43,6 +43,16 @@ func TestGovcReplay(t *testing.T) {
 			if err != nil {
 				continue
 			}
+			// a batch of this key alone
+			if one, err := s.PickServerForKeys([]string{k}); err == nil {
+				if _, ok := one[a.String()]; !ok && len(msgs) < 3 {
+					var under []string
+					for srv := range one {
+						under = append(under, srv)
+					}
+					msgs = append(msgs, fmt.Sprintf("%d servers: key %.20q alone goes to %s, a batch holding only that key lists it under %v", n, k, a.String(), under))
+				}
+			}
 			if where[k] != a.String() && len(msgs) < 3 {
 				msgs = append(msgs, fmt.Sprintf("%d servers: key %.20q (len %d) goes to %s alone and to %q in a batch", n, k, len(k), a.String(), where[k]))
 			}
